@@ -458,6 +458,13 @@ pub fn degenerate_programs() -> Vec<(String, Program)> {
 pub fn special_programs() -> Vec<(String, Program)> {
     let mut v = vec![("D-real".to_string(), real_shapes_program()), ("D-deep".to_string(), deep_program())];
     v.extend(degenerate_programs().into_iter().map(|(n, p)| (format!("degenerate: {n}"), p)));
+    // recursive structs whose only Box sits inside an array / a tuple / an Option of the written field type
+    let rec = |name: &str, fields: Vec<(&str, Ty)>| (format!("D-rec-struct {name}"), Program { defs: vec![Def::strukt(&["p", "t"], name, &[], named(fields))], roots: vec![Ty::Named(0, vec![])] });
+    let me = || Ty::Named(0, vec![]);
+    v.push(rec("Tree", vec![("kids", Ty::Array(b(Ty::Option(b(Ty::Box(b(me()))))), 2)), ("v", U8)]));
+    v.push(rec("Pair", vec![("both", Ty::Array(b(Ty::Box(b(me()))), 2)), ("v", U8)]));
+    v.push(rec("Link", vec![("next", Ty::Tuple(vec![Ty::Option(b(Ty::Box(b(me())))), U8]))]));
+    v.push(rec("Node", vec![("children", Ty::Vec(b(Ty::Tuple(vec![U32, me()]))))]));
     v
 }
 
